@@ -408,34 +408,6 @@ func nearbyRuleText(rule string, tick int) string {
 			return v
 		}
 	}
-	if false {
-		var sb strings.Builder
-		inS, run := false, false
-		for i := 0; i < len(rule); i++ {
-			c := rule[i]
-			switch {
-			case inS && c == '\\' && i+1 < len(rule):
-				sb.WriteByte(c)
-				i++
-				sb.WriteByte(rule[i])
-				continue
-			case c == '"':
-				inS = !inS
-			}
-			if !inS && (c == ' ' || c == '\t' || c == '\n' || c == '\r') {
-				if !run {
-					sb.WriteByte(' ')
-				}
-				run = true
-				continue
-			}
-			run = false
-			sb.WriteByte(c)
-		}
-		if v := sb.String(); v != rule {
-			return v
-		}
-	}
 	if len(outer) > 0 && tick%16 == 13 {
 		// one blank between two words doubled: a malformed sibling (the grammar allows exactly one blank there)
 		i := outer[tick%len(outer)]
